@@ -60,57 +60,56 @@ Proof.
   vm_compute. reflexivity.
 Qed.
 
-(* (b) the calculator.  [cache_inv]: a warm cache holds the burnout rate or at most what its year
-   had left.  From such a cache — or at the first block of a cycle from any cache that is not in
-   the burnout state, or from a cold cache — every successful PullRewards is within the bound the
-   property states (<= the year's supply minus what was distributed until the last cycle, or
+(* (b) the calculator (behaviour of /repo since 0cc9fdb, 6bfa5cf, 47bb3a6).
+   [cache_inv]: a warm cache holds the burnout rate or at most what its year had left.  From such
+   a cache (a cold cache is one) — or at the first block of a cycle from ANY cache — every
+   successful PullRewards is within the bound the property states (<= the year's supply minus
+   what was distributed until the last cycle, i.e. what was left when the cycle began; or
    <= min(burnout rate, pool) once the schedule is over) and re-establishes the invariant. *)
 Theorem C13_pull_bounded : forall o bt ys h pool c a c',
-  cache_inv o ys c \/ (first_in_cycle o h = true /\ c_burned c = false) ->
+  cache_inv o ys c \/ first_in_cycle o h = true ->
   pull o bt ys h pool c = (COk a, c') ->
   pull_bound o ys pool c' a = true /\ cache_inv o ys c'.
 Proof. exact pull_bounded_step. Qed.
 Print Assumptions C13_pull_bounded.
 
-(* ... and whatever ConsumeRewards then records, the hypothesis holds again for the next block:
-   so by induction every pull of a run that starts cold is bounded, as long as no calculation
-   fails (a failed calculation = trigger C13.overdrawn_year, see the refuted witness below) *)
-Theorem C13_pull_bounded_next : forall o ys h c x, cache_inv o ys c ->
-  cache_inv o (consume o ys h c x) c \/ (first_in_cycle o (h + 1) = true /\ c_burned c = false).
-Proof. exact pull_hyp_next. Qed.
-Print Assumptions C13_pull_bounded_next.
+(* FULL, run level: for all options, header times, year records, pool balances, consumed amounts
+   and run lengths, from a cold cache (node start) or from any cache satisfying the invariant,
+   at any height: EVERY successful pull of the run is within the bound.  A failed calculation
+   (overdrawn year) pulls nothing and leaves a cold cache, so it does not interrupt the induction
+   any more (before 47bb3a6 it did: findings/C13_overdrawn_year.json). *)
+Theorem C13_pull_bounded_run : forall steps o bt ys c h,
+  cache_inv o ys c \/ first_in_cycle o h = true -> all_bounded o bt ys c h steps.
+Proof. exact pull_bounded_run. Qed.
+Print Assumptions C13_pull_bounded_run.
 
-Theorem C13_pull_bounded_cold : forall o bt ys h pool a c',
-  pull o bt ys h pool cold = (COk a, c') -> pull_bound o ys pool c' a = true.
-Proof.
-  intros o bt ys h pool a c' H.
-  exact (proj1 (pull_bounded_step o bt ys h pool cold a c' (or_introl (fun E => False_ind _ (Bool.diff_false_true E))) H)).
-Qed.
+Theorem C13_pull_bounded_from_start : forall steps o bt ys h, all_bounded o bt ys cold h steps.
+Proof. intros. apply pull_bounded_run. left. exact (cache_inv_cold o ys). Qed.
 
-(* the pulled amount is non-negative when the measured cycle duration is positive (complement of
-   the trigger C13.zero_length_cycle) and the forecast product does not leave int64 *)
+(* FULL: the pulled amount is never negative (no guard on the cycle duration any more, 0cc9fdb);
+   remaining hypotheses: sane options, the forecast product secsToClose*cycle inside int64, and a
+   non-negative cached amount — which the conclusion re-establishes, so it holds along every run
+   from a cold cache *)
 Theorem C13_pull_nonneg : forall o bt ys h pool c a c',
   0 < o_cycle o -> 0 <= o_window o -> 0 <= o_burnout o -> 0 <= pool ->
-  0 < fst (secs_per_cycle o bt h) ->
   Forall (fun yr => 0 <= dur_secs (y_close yr - snd (secs_per_cycle o bt h)) * o_cycle o < 2^63) ys ->
   (warm c = true -> 0 <= c_amt c) ->
   pull o bt ys h pool c = (COk a, c') -> 0 <= a /\ 0 <= c_amt c'.
 Proof. exact pull_nonneg. Qed.
 Print Assumptions C13_pull_nonneg.
 
-(* restart independence, partial: if the running node's cache was (re)calculated at the first
-   block h0 of the cycle from a cache that was not a cached burnout (complement of the trigger
-   C13.sticky_burnout) and that calculation succeeded (complement of C13.overdrawn_year), then at
-   EVERY block h of that cycle, for all year records that differ from those at h0 only in the
-   distributed totals, Calculate with the warm cache and Calculate with a cold cache (restarted
-   node) return the same amount and leave the same cache. *)
-Theorem C13_restart_independent_partial : forall o bt ys ys' h0 h c0 r0 c1,
+(* FULL: restart independence.  h0 = first block of a cycle, c0 = ANY cache the running node had
+   there (burnout cached or not — 6bfa5cf), the calculation at h0 succeeded or failed (47bb3a6):
+   at EVERY block h of that cycle, for all year records that differ from those at h0 only in the
+   distributed totals, the running node and a restarted node (cold cache) return the same result
+   and are left with the same cache. *)
+Theorem C13_restart_independent : forall o bt ys ys' h0 h c0,
   0 < o_cycle o -> 1 <= h0 -> first_in_cycle o h0 = true -> h0 <= h -> cycle_no o h = cycle_no o h0 ->
-  sticky_burnout c0 = false -> sched ys' = sched ys ->
-  calculate o bt ys h0 c0 = (COk r0, c1) ->
-  calculate o bt ys' h c1 = (COk r0, c1) /\ calculate o bt ys' h cold = (COk r0, c1).
+  sched ys' = sched ys ->
+  let res := calculate o bt ys h0 c0 in
+  calculate o bt ys' h (snd res) = res /\ calculate o bt ys' h cold = res.
 Proof. exact restart_independent. Qed.
-Print Assumptions C13_restart_independent_partial.
+Print Assumptions C13_restart_independent.
 
 (* (c) cumulative records: for ALL operation sequences (AddMaturedBalance with non-negative
    amounts, WithdrawRewards with any amount, any addresses) from the empty store: the matured
@@ -137,16 +136,17 @@ Example C13_withdraw_nonvacuous :
   forallb matured_ok ops = true /\ cget (crun [] ops) 1 = (0, 10) /\ paid_of [] ops 1 = 10.
 Proof. vm_compute. auto. Qed.
 
-(* ---- refuted full statements: closed witnesses (each replayed on the real code on every run:
-   findings/C13_*.json; the recorded observations of the real code are part of the terms below) ---- *)
+(* ---- the former refuted witnesses (findings/C13_*.json, all repaired) are closed examples now:
+   the inputs on which the full statements used to fail, with the observations of the real code
+   recorded after the repairs; the model agrees with them and no monitor fires ---- *)
 Definition finding_pcases : list pcase := [
 mkPcase (mkOpts 2 30 86400 [0x39e7139a8c08fa06000000] 0x4563918244f40000 5)
  [0x16345785d8a00000; 0x16345785de95e100; 0x16345785e48bc200; 0x16345785ea81a300]
  [0x16a4615906430000]
  [mkPstep 1 false 0xd3c21bcecceda1000000 0x1ce109a3198821cd5 true 0x1ce109a3198821cd5 true 0x1ce109a3198821cd5 [(0x1ce109a3198821cd5, 0)];
   mkPstep 2 false 0xd3c21bcecceda1000000 0x1ce109a3198821cd5 true 0x1ce109a3198821cd5 true 0x1ce109a3198821cd5 [(0x39c213463310439aa, 0x39c213463310439aa)];
-  mkPstep 3 false 0xd3c21bcecceda1000000 (-7589407) true (-7589407) true (-7589407) [(0x39c21346330906b8b, 0x39c213463310439aa)];
-  mkPstep 4 false 0xd3c21bcecceda1000000 (-7589407) true (-7589407) true (-7589407) [(0x39c213463301c9d6c, 0x39c213463301c9d6c)]];
+  mkPstep 3 false 0xd3c21bcecceda1000000 0xf66f325182a1660 true 0xf66f325182a1660 true 0xf66f325182a1660 [(0x3ab882788492e500a, 0x39c213463310439aa)];
+  mkPstep 4 false 0xd3c21bcecceda1000000 0xf66f325182a1660 true 0xf66f325182a1660 true 0xf66f325182a1660 [(0x3baef1aad6158666a, 0x3baef1aad6158666a)]];
 mkPcase (mkOpts 2 30 86400 [0x39e7139a8c08fa06000000] 0x4563918244f40000 5)
  [0x16345785d8a00000; 0x1634578956b1d600; 0x16906da021340000; 0x16906da39f45d600; 0x16906da71d57ac00; 0x16906daa9b698200]
  [0x16a4615906430000]
@@ -154,8 +154,8 @@ mkPcase (mkOpts 2 30 86400 [0x39e7139a8c08fa06000000] 0x4563918244f40000 5)
   mkPstep 2 false 0xd3c21bcecceda1000000 0x1ce109a3198821cd5 true 0x1ce109a3198821cd5 true 0x1ce109a3198821cd5 [(0x39c213463310439aa, 0x39c213463310439aa)];
   mkPstep 3 false 0xd3c21bcecceda1000000 0x4563918244f40000 true 0x4563918244f40000 true 0x4563918244f40000 [(0x39c213463310439aa, 0x39c213463310439aa)];
   mkPstep 4 false 0xd3c21bcecceda1000000 0x4563918244f40000 true 0x4563918244f40000 true 0x4563918244f40000 [(0x39c213463310439aa, 0x39c213463310439aa)];
-  mkPstep 5 false 0xd3c21bcecceda1000000 0x4563918244f40000 true 0x4563918244f40000 true 0xa22aee9fe8a35b900 [(0x39c213463310439aa, 0x39c213463310439aa)];
-  mkPstep 6 false 0xd3c21bcecceda1000000 0x4563918244f40000 true 0x4563918244f40000 true 0xa22aee9fe8a35b900 [(0x39c213463310439aa, 0x39c213463310439aa)]];
+  mkPstep 5 false 0xd3c21bcecceda1000000 0xa22aee9fe8a35b900 true 0xa22aee9fe8a35b900 true 0xa22aee9fe8a35b900 [(0xdbed01e61bb39f2aa, 0x39c213463310439aa)];
+  mkPstep 6 false 0xd3c21bcecceda1000000 0xa22aee9fe8a35b900 true 0xa22aee9fe8a35b900 true 0xa22aee9fe8a35b900 [(0x17e17f0860456fabaa, 0x17e17f0860456fabaa)]];
 mkPcase (mkOpts 2 30 86400 [0x39e7139a8c08fa06000000] 0x4563918244f40000 5)
  [0x16345785d8a00000; 0x1634578956b1d600; 0x1671bb975e580000; 0x1671bb9adc69d600; 0x1671bb9e5a7bac00; 0x1671bba1d88d8200]
  [0x16a4615906430000]
@@ -164,54 +164,53 @@ mkPcase (mkOpts 2 30 86400 [0x39e7139a8c08fa06000000] 0x4563918244f40000 5)
   mkPstep 3 false 0xd3c21bcecceda1000000 0x39e70ffe6ad496d4fbc656 true 0x39e70ffe6ad496d4fbc656 true 0x39e70ffe6ad496d4fbc656 [(0x39e7139a8c08fa06000000, 0x39c213463310439aa)];
   mkPstep 4 false 0xd3c21bcecceda1000000 0x39e70ffe6ad496d4fbc656 true 0x39e70ffe6ad496d4fbc656 true 0x39e70ffe6ad496d4fbc656 [(0x73ce2398f6dd90dafbc656, 0x73ce2398f6dd90dafbc656)];
   mkPstep 5 false 0xd3c21bcecceda1000000 0 false 0 false 0 [(0x73ce2398f6dd90dafbc656, 0x73ce2398f6dd90dafbc656)];
-  mkPstep 6 false 0xd3c21bcecceda1000000 0x39e70ffe6ad496d4fbc656 true 0x39e70ffe6ad496d4fbc656 false 0 [(0xadb5339761b227aff78cac, 0xadb5339761b227aff78cac)]]].
+  mkPstep 6 false 0xd3c21bcecceda1000000 0 false 0 false 0 [(0x73ce2398f6dd90dafbc656, 0x73ce2398f6dd90dafbc656)]]].
 
-(* the model reproduces the real runs exactly (no mismatch code), and the monitors fire exactly
-   inside the three trigger regions *)
-Example C13_findings_model_run :
-  check_pcases 0 finding_pcases = [0; 2; 112; 0; 3; 112; 1; 4; 120; 1; 5; 120; 2; 5; 220; 2; 5; 221].
+Example C13_former_witnesses_hold : check_pcases 0 finding_pcases = [].
 Proof. vm_compute. reflexivity. Qed.
 
 Definition wo : opts := mkOpts 2 30 86400 [70000000000000000000000000] 5000000000000000000 5.
 Definition wclose : Z := 1631536000000000000.
 
-(* C13.zero_length_cycle: three blocks within 0.2 s, cycle 2: the pulled amount is negative, and
-   with an absent signer the credits exceed it *)
-Theorem C13_pull_nonneg_refuted_zero_length_cycle : exists bt ys h pool a c',
-  zero_len_cycle wo bt h = true /\ pull wo bt ys h pool cold = (COk a, c') /\ a < 0 /\
-  exists out, split K [mkVote 1 1 true true; mkVote 2 1 false true] 0 [] 1 a = Some out /\
-              a < zsum (map snd (so_vals out)).
-Proof.
-  exists (bt_list [1600000000000000000; 1600000000100000000; 1600000000200000000]),
-         [mkYear wclose 66590563165905631658 66590563165905631658], 3, 1000000000000000000000000.
-  eexists. eexists. split; [vm_compute; reflexivity|]. split; [vm_compute; reflexivity|].
-  split; [vm_compute; reflexivity|]. eexists. split; vm_compute; reflexivity.
-Qed.
+(* fixed 0cc9fdb: three blocks within 0.2 s, cycle 2: the forecast divides by one second, not by
+   zero; the pulled amount is positive *)
+Example C13_zero_length_cycle_fixed :
+  pull wo (bt_list [1600000000000000000; 1600000000100000000; 1600000000200000000])
+       [mkYear wclose 66590563165905631658 66590563165905631658] 3 1000000000000000000000000 cold
+  = (COk 1109841698838156896, mkCache 0 2 false 1109841698838156896).
+Proof. vm_compute. reflexivity. Qed.
 
-(* C13.sticky_burnout: a cache that recorded burnout after a 300-day cycle keeps paying the
-   burnout rate; a cold cache pulls the scheduled amount *)
-Theorem C13_restart_independent_refuted_sticky_burnout : exists bt ys h pool c,
-  sticky_burnout c = true /\
-  fst (pull wo bt ys h pool c) <> fst (pull wo bt ys h pool cold).
-Proof.
-  exists (bt_list [1600000000000000000; 1600000015000000000; 1625920000000000000; 1625920015000000000;
-                   1625920030000000000; 1625920045000000000]),
-         [mkYear wclose 66590563165905631658 66590563165905631658], 5, 1000000000000000000000000,
-         (mkCache (-1) 2 true 5000000000000000000).
-  split; [vm_compute; reflexivity|]. vm_compute. discriminate.
-Qed.
+(* fixed 6bfa5cf: a cache that recorded burnout after a 300-day cycle is recalculated at the next
+   cycle start, like a cold cache *)
+Example C13_sticky_burnout_fixed :
+  let bt := bt_list [1600000000000000000; 1600000015000000000; 1625920000000000000; 1625920015000000000;
+                     1625920030000000000; 1625920045000000000] in
+  let ys := [mkYear wclose 66590563165905631658 66590563165905631658] in
+  pull wo bt ys 5 1000000000000000000000000 (mkCache (-1) 2 true 5000000000000000000)
+  = pull wo bt ys 5 1000000000000000000000000 cold /\
+  fst (pull wo bt ys 5 1000000000000000000000000 cold) = COk 186966632859782461696.
+Proof. vm_compute. auto. Qed.
 
-(* C13.overdrawn_year: the recalculation at the cycle start failed, the previous cycle's amount is
-   still cached; a running node pulls it (above what the year has left, which is negative), a
-   restarted node pulls nothing *)
-Theorem C13_pull_bounded_refuted_overdrawn_year : exists bt ys h pool c a c',
-  overdrawn wo bt ys h = true /\ sticky_burnout c = false /\
-  pull wo bt ys h pool c = (COk a, c') /\ pull_bound wo ys pool c' a = false /\
-  fst (pull wo bt ys h pool cold) = CErr.
-Proof.
-  exists (bt_list [1600000000000000000; 1600000015000000000; 1617280000000000000; 1617280015000000000;
-                   1617280030000000000; 1617280045000000000]),
-         [mkYear wclose 139999933409436834094368342 139999933409436834094368342], 6,
-         1000000000000000000000000, (mkCache 0 2 false 69999933409436834094368342).
-  eexists. eexists. repeat split; vm_compute; reflexivity.
-Qed.
+(* fixed 47bb3a6: after the failed recalculation at the cycle start (h = 5) the cache is cold, so
+   at h = 6 the running node fails like a restarted one and pulls nothing *)
+Example C13_overdrawn_year_fixed :
+  let bt := bt_list [1600000000000000000; 1600000015000000000; 1617280000000000000; 1617280015000000000;
+                     1617280030000000000; 1617280045000000000] in
+  let ys := [mkYear wclose 139999933409436834094368342 139999933409436834094368342] in
+  pull wo bt ys 5 1000000000000000000000000 (mkCache 0 2 false 69999933409436834094368342) = (CErr, cold) /\
+  pull wo bt ys 6 1000000000000000000000000 cold = (CErr, cold).
+Proof. vm_compute. auto. Qed.
+
+(* What remains (not a violation of the property as stated, which bounds each single pull by what
+   was left when the cycle began): after a slow cycle the forecast can be shorter than the cycle
+   ([short_forecast]); each of the cycle's pulls is within the bound, but together they exceed it,
+   so a year's TOTAL can exceed its supply — here 2 pulls of ~7e25 from a year of 7e25. *)
+Example C13_year_total_can_exceed_supply :
+  let bt := bt_list [1600000000000000000; 1600000015000000000; 1617280000000000000; 1617280015000000000] in
+  let ys := [mkYear wclose 66590563165905631658 66590563165905631658] in
+  short_forecast wo bt ys 3 = true /\
+  fst (pull wo bt ys 3 1000000000000000000000000 cold) = COk 69999933409436834094368342 /\
+  fst (pull wo bt ys 4 1000000000000000000000000 (mkCache 0 2 false 69999933409436834094368342))
+    = COk 69999933409436834094368342 /\
+  nthZ (o_shares wo) 0 0 < 2 * 69999933409436834094368342.
+Proof. vm_compute. auto. Qed.
